@@ -44,11 +44,11 @@ PLAN = {
                     "random box sets incl. NaN rows, d in 1..3, page sizes 1..n+1, p in 1..31",
     ),
     'C04': dict(
-        modules=[], level='other', stages=[RTC], stand_in_only=True,
+        modules=['c13_bounds', 'c14_measures', 'c08_hilbert_distance', 'glue_rep', 'glue_misc'], level='other', stages=[RTC],
         trusted_base=COMMON_TRUST, assumptions=[RTC_NOTE],
-        explanation="cx is pandas/pyarrow glue over C01/C03/C13: no function of it is inside the verifier's subset; decided only "
-                    "by the bounded stand-in (array / series / frame, with and without a spatial index of random p and page "
-                    "size, omitted / reversed slice ends) against the exact C01 oracle",
+        explanation="proved: _BaseCoordinateIndexer._get_bounds for every shape of key (scalar / slice with each combination of "
+                    "omitted ends, with and without an index; step rejected); the selection itself (_perform_get_item: "
+                    "pandas iloc / mask, R-tree candidates) by the bounded stand-in against the exact C01 oracle",
     ),
     'C05': dict(
         modules=[], level='other', stages=[RTC], stand_in_only=True,
@@ -76,12 +76,14 @@ PLAN = {
         crosscheck={'quick': 4, 'thorough': 20},
     ),
     'C08': dict(
-        modules=['c08_hilbert_distance'], level='other', stages=[RTC],
+        modules=['c13_bounds', 'c14_measures', 'c08_hilbert_distance', 'glue_rep', 'glue_misc'], level='other', stages=[RTC],
         trusted_base=COMMON_TRUST + [NUMPY_TRUST],
         assumptions=[MATH_ARITH, "distances_from_coordinates is used through an assumed math-mode view of the "
                      "bit-vector function verified under C07", RTC_NOTE],
-        explanation="numeric core (_data2coord, _distances_from_bounds) proved; GeometryArray.hilbert_distance (list/tuple "
-                    "handling, argument unmodified, independence of context) by the run-time checked contract (bounded)",
+        explanation="proved: _data2coord, _distances_from_bounds, and GeometryArray.hilbert_distance on list arrays for "
+                    "total_bounds given as None / tuple / list / ndarray (value = cell of the bbox centre, widening, argument "
+                    "unmodified), relative to the pyarrow representation contracts; fixed (point) arrays and the Series "
+                    "wrapper by the run-time checked contract (bounded)",
     ),
     'C09': dict(
         modules=[], level='other', stages=[RTC], stand_in_only=True,
@@ -96,11 +98,14 @@ PLAN = {
                     "every geometry column (2, 3, 12 partitions), pruning never loses an intersecting row",
     ),
     'C13': dict(
-        modules=['c13_bounds'], level='other', stages=[RTC],
+        modules=['c13_bounds', 'c14_measures', 'glue_rep'], level='other', stages=[RTC],
         trusted_base=COMMON_TRUST, assumptions=[MATH_ARITH, RTC_NOTE],
-        explanation="the three bounds kernels are proved for all lengths and all float values incl. NaN/inf, with the "
-                    "declarative reading of the spec by inductive lemmas; array / series / dask / sindex wrappers by the "
-                    "run-time checked contract (bounded)",
+        explanation="proved: the three bounds kernels for all lengths and all float values incl. NaN/inf (declarative reading "
+                    "of the spec by inductive lemmas), the buffer layer of list arrays (buffer_values, buffer_offsets, "
+                    "flat_values, buffer_outer_offsets, for 1-3 offset levels and any array offset) and "
+                    "GeometryListArray.bounds / total_bounds / total_bounds_x / total_bounds_y relative to the pyarrow "
+                    "representation contracts; fixed arrays, series / dask / sindex wrappers by the run-time checked "
+                    "contract (bounded)",
     ),
     'C14': dict(
         modules=['c14_measures'], level='other', stages=[RTC],
@@ -119,14 +124,14 @@ PLAN = {
                     "immutability by the run-time checked contract (bounded)",
     ),
     'C16': dict(
-        modules=['c16_isnull'], level='other', stages=[RTC],
+        modules=['c16_isnull', 'c13_bounds', 'c14_measures', 'glue_rep'], level='other', stages=[RTC],
         trusted_base=COMMON_TRUST, assumptions=[RTC_NOTE],
         explanation="_perform_extract_isnull_bytemap proved (bit (offset+i) of the validity bitmap, for every offset); "
                     "__getitem__/take/concat/copy/pickle and view-determinacy of every derived quantity by the run-time "
                     "checked contract over random derivation histories (bounded)",
     ),
     'C17': dict(
-        modules=['c13_bounds', 'c14_measures'], level='other', stages=[RTC],
+        modules=['c13_bounds', 'c14_measures', 'glue_rep'], level='other', stages=[RTC],
         trusted_base=COMMON_TRUST, assumptions=[MATH_ARITH, RTC_NOTE],
         explanation="inertness clauses that are inside proved contracts: an empty coordinate range gives a NaN bounds row and "
                     "contributes nothing to total bounds (C13 spec + lemmas), missing rows are skipped by the map kernels "
